@@ -1,5 +1,5 @@
 #!/bin/bash
-# usage: tools/import_seeds.sh C07 [outdir]   verifies demo (passes clean, fails patched) in a scratch worktree, copies to seeded/
+# usage: tools/import_seeds.sh C07 [outdir] [name-prefix, e.g. r2]   verifies demo (passes clean, fails patched) in a scratch worktree, copies to seeded/
 P=$1; p=$(echo $P | tr A-Z a-z); OUT=${2:-/tmp/seed_${p}_out}
 W=/tmp/seed_verify_$$
 git -C /repo worktree add -q --detach $W HEAD || exit 1
@@ -13,7 +13,7 @@ for d in $OUT/m*; do
     else b=APPLYFAIL; fi
     echo "$P $k clean_rc=$a patched_rc=$b: $(tail -1 /tmp/demo_out_$$.txt 2>/dev/null | cut -c1-140)"
     if [ "$a" = "0" ] && [ "$b" = "1" ]; then
-      mkdir -p /verif/seeded/${P}_$k; cp $d/patch.diff $d/demo.py $d/meta.json /verif/seeded/${P}_$k/
+      mkdir -p /verif/seeded/${P}_${3:-}$k; cp $d/patch.diff $d/demo.py $d/meta.json /verif/seeded/${P}_${3:-}$k/
     fi )
 done
 git -C /repo worktree remove --force $W
